@@ -5,7 +5,8 @@ set -uo pipefail
 ID=$1; TIER=${2:-quick}
 . "$(dirname "$0")/env.sh"
 LOG=$(mktemp)
-if ! $ROOT/scripts/build.sh >$LOG 2>&1; then
+RACE=""; if [ "$ID" = "C14" ] && [ "$TIER" = "thorough" ]; then RACE=race; fi
+if ! $ROOT/scripts/build.sh $RACE >$LOG 2>&1; then
   echo "HARNESS-ERROR: build failed" >&2; cat $LOG >&2; rm -f $LOG; exit 2
 fi
 rm -f $LOG
